@@ -633,9 +633,13 @@ class GraphBasedModelConstructor:
 
         novel_monoexon = set()
         clustered_polya_reads = self.cluster_monoexons(polya_reads)
-        novel_monoexon.update(self.generate_monoexon_from_clustered(clustered_polya_reads, True))
         clustered_polyt_reads = self.cluster_monoexons(polyt_reads)
-        novel_monoexon.update(self.generate_monoexon_from_clustered(clustered_polyt_reads, False))
+        # overlapping candidates exclude each other: the better supported ones come first, whatever their strand
+        candidates = [(len(reads), True, pos) for pos, reads in clustered_polya_reads.items()] + \
+                     [(len(reads), False, pos) for pos, reads in clustered_polyt_reads.items()]
+        for count, forward, pos in sorted(candidates, key=lambda x: -x[0]):
+            clustered_reads = clustered_polya_reads if forward else clustered_polyt_reads
+            novel_monoexon.update(self.generate_monoexon_from_clustered({pos: clustered_reads[pos]}, forward))
 
     def generate_monoexon_from_clustered(self, clustered_reads, forward=True):
         cutoff = self.params.min_novel_count
